@@ -5,12 +5,13 @@
     ExtractErrno of the error and leaves the fid table alone; every request leaves a state from which
     the next one (any connection) is served.  NOT proved here (covered by the differential
     Server/Cases.v [c15_step] on every run, with faults injected at backend call indices of real
-    histories): the error-reply / table-unchanged / obtained-Files-closed clauses for the multi-call
-    requests (walks, attach, rename, remove, clunk with xattr) -- they need the reference-count
-    ledger of C05.  Lock release on abort is the lock model's (C07/C16), not this sequential one. *)
+    histories): for multi-call requests (walks, attach, rename, remove, clunk with xattr) that the
+    reply is ExtractErrno of the FIRST failing call, that Tremove still unbinds, and that the Files obtained
+    during the failed request are closed (needs exact counts of the fresh fidRefs on top of Server/Ledger.v);
+    the table-unchanged clause IS proved for every request kind and call index ([C15_error_keeps_table]).  Lock release on abort is the lock model's (C07/C16), not this sequential one. *)
 From Coq Require Import NArith List String Bool.
 From P9V Require Import Base.Str gen.ConstGen gen.HandlerGen Server.State Server.Msg Server.Handlers
-  Server.Summaries Server.NameProofs Server.SummaryProofs Server.FaultProofs Server.TableFrame.
+  Server.Summaries Server.NameProofs Server.SummaryProofs Server.FaultProofs Server.TableFrame Server.TableErr.
 Import ListNotations.
 Open Scope N_scope.
 
@@ -51,6 +52,20 @@ Theorem C15_other_fids_untouched : forall s c m tape c' f',
   tlookup (c', f') (st_fids (fst (fst (fst (step s c m tape))))) = tlookup (c', f') (st_fids s).
 Proof. exact other_fids_untouched. Qed.
 Print Assumptions C15_other_fids_untouched.
+
+(** after an ERROR reply (any errno other than the EFAULT of a panic), at whatever backend call index the
+    error struck and for every request kind (walk of n components failing at component i, attach, lcreate,
+    rename/renameat, xattrwalk, ...), the fid table is exactly as before the request *)
+Theorem C15_error_keeps_table : forall s c m tape e,
+  unbinds m = false -> snd (fst (fst (step s c m tape))) = RErr e -> e <> linux_EFAULT ->
+  st_fids (fst (fst (fst (step s c m tape)))) = st_fids s.
+Proof. exact error_keeps_table. Qed.
+Print Assumptions C15_error_keeps_table.
+(** ... Tclunk still unbinds its fid, whatever it reports (unless it panicked before DeleteFID) *)
+Theorem C15_clunk_unbinds : forall s c f tape,
+  snd (fst (fst (step s c (Tclunk f) tape))) <> RErr linux_EFAULT ->
+  tlookup (c, f) (st_fids (fst (fst (fst (step s c (Tclunk f) tape))))) = None.
+Proof. exact clunk_unbinds. Qed.
 
 (** continued service: whatever happened before (errors, panics), the next request is answered
     from a state satisfying the invariant again -- on any connection *)
